@@ -123,6 +123,11 @@ def extra_vectors(name, rng, n=6):
     if short in ('DnsRecordTxtValueSpfDirectiveA', 'DnsRecordTxtValueSpfDirectiveMx'):
         mech = b'a' if short.endswith('A') else b'mx'
         return [rng.choice([b'', b'+', b'-', b'~', b'?']) + mech + rng.choice([b'', b':example.com']) + spf_cidr(rng) for _ in range(n)]
+    if short in ('DnsNameUncompressed', 'DnsRecordMx'):
+        # internationalised names: A-labels (xn--) on the wire, U-labels in the object
+        names = [[b'xn--bcher-kva', b'example'], [b'xn--r8jz45g', b'xn--zckzah'], [b'www', b'xn--mnchen-3ya', b'de']]
+        wire = [b''.join(bytes([len(l)]) + l for l in labels) + b'\x00' for labels in names]
+        return wire[:n] if short == 'DnsNameUncompressed' else [b'\x00\x0a' + w for w in wire[:n]]
     return []
 
 
